@@ -124,6 +124,10 @@ theorem c04_perm_values (ext : Ext) (r : NetRule) (q : Request)
     restrClients := finalize_permEquiv rh rh' rnets rnets' h9 h11,
     enabled := rfl, disabled := rfl, permTypes := rfl, restrTypes := rfl }
 
+/-- Generated-fact obligation: every key of `dns.StringToType` is ASCII, which is what makes the
+    `upperKey` model of `strings.ToUpper` + map lookup in `strToRRType` exact for non-ASCII input. -/
+theorem dns_type_names_ascii : Facts.dnsStringToType.all (fun e => isAscii e.1) = true := by decide
+
 /-! ### Non-vacuity -/
 
 /-- A concrete oracle: the public suffix of both hosts below is `com`, ICANN-managed. -/
